@@ -455,6 +455,11 @@ def step (st : DState) (line : String) : DState × String :=
     | some is => (st, "ok " ++ ";".intercalate ((Model.specBlocks is).map fun b =>
         s!"{b.1}:{"+".intercalate (b.2.1.map toString)}:{"+".intercalate (b.2.2.map toString)}"))
     | none => (st, "bad-request")
+  | ["GI", offs, ranges] =>
+    let os := (lst offs).filterMap (·.toNat?)
+    (st, ";".intercalate ((lst ranges).map fun r => match r.splitOn ":" with
+      | [b, e] => cj ((Model.getInstructions os (b.toNat?.getD 0) (e.toNat?.getD 0)).map toString)
+      | _ => "bad-range"))
   | ["DISPATCH", data] => match parseDispatch data with
     | some dd => (st, s!"{bit (Model.dispatchOK dd)} {cj (Model.dispatchOffenders dd)}")
     | none => (st, "bad-request")
